@@ -609,15 +609,46 @@ func Run(tracePath string, entry func()) Result {
 		}
 	}
 	res.Completed = true
+	// goroutines that exist natively but never took a step in the trace (e.g. blocked at their
+	// first operation in the model) are bound now, so that they take part in the quiescence check
+	mu.Lock()
+	for id := 1; id < len(trace.Threads); id++ {
+		if threads[id] != nil {
+			continue
+		}
+		tt := trace.Threads[id]
+		pick := -1
+		for i, u := range unbound {
+			pid := -1
+			if u.parent != nil {
+				pid = u.parent.id
+			}
+			if u.fire != nil {
+				continue // an unexpired timer never fires by itself
+			}
+			if pid == tt.Parent && sameSite(u.site, tt.Site) && (u.idx == tt.ChildIdx || pick < 0) {
+				pick = i
+				if u.idx == tt.ChildIdx {
+					break
+				}
+			}
+		}
+		if pick >= 0 {
+			u := unbound[pick]
+			u.id = id
+			threads[id] = u
+			unbound = append(unbound[:pick], unbound[pick+1:]...)
+		}
+	}
 	// quiescence check: every thread that is not finished is let go; one that still does not
 	// finish or reach another yield within the grace period is blocked for real
-	mu.Lock()
 	var rest []*thr
 	for _, t := range threads {
 		if !t.done {
 			rest = append(rest, t)
 		}
 	}
+	rest = append(rest, unbound...) // goroutines the model has no slot for run freely too
 	mu.Unlock()
 	for _, t := range rest {
 		t.future = nil
